@@ -95,6 +95,7 @@ int main(int argc, char** argv){
     if (!strcmp(argv[5], "recalc")){
         /* safe_mode 0; the recalculate-coordinates flag is raised three times while unsynchronized: WHFast must synchronize each time */
         if (!strcmp(integ, "whfast")) r->ri_whfast.safe_mode = 0;
+        if (!strcmp(integ, "saba")) r->ri_saba.safe_mode = 0;
         reb_simulation_step(r); reb_simulation_step(r);
         for (int k=0;k<3;k++){
             r->ri_whfast.recalculate_coordinates_this_timestep = 1;
